@@ -343,6 +343,23 @@ def read_state():
 setup_state()
 obs(read_state())
 '''),
+    ('class_imports', '''
+def make_paths():
+    class Paths:
+        from os.path import join as join_path
+        from os.path import dirname
+        from os.path import basename, splitext
+        import json
+        import re
+        nested = dirname(dirname(dirname('a/b/c/d')))
+        joined = join_path(basename('x/y'), basename('z/w'), splitext('v.txt')[0], splitext('u.py')[1])
+        def build(self):
+            return (Paths.join_path('a', 'b').replace('\\\\', '/'), Paths.dirname('a/b'), Paths.basename('a/b'), Paths.json.dumps(1), Paths.re.escape('.'))
+    return Paths
+obs(make_paths()().build())
+obs(sorted(name for name in make_paths().__dict__ if not name.startswith('_')))
+obs((make_paths().nested, make_paths().joined.replace('\\\\', '/')))
+'''),
     ('class_scope', '''
 value = 'module'
 class Scoped:
